@@ -1,11 +1,25 @@
 /- C14 stated about `Beat.round_to_tick` as translated from the Python source on this run. -/
 import Simfile.Props.GenEq.Beat
+import Simfile.Props.GenEq.Source
 import Simfile.Props.C14
+import Simfile.Props.C14More
 namespace Simfile.GenProps
 open Simfile
 
 /-- C14: the generated rounding lands on the tick grid, never more than 1/96 of a beat away -/
 theorem round_to_tick_nearest (x : Rat) : onGrid (GenCode.roundToTick x) ∧ |GenCode.roundToTick x - x| ≤ 1 / 96 := by
   rw [GenEq.roundToTick_eq]; exact ⟨C14.round_on_grid x, C14.round_nearest x⟩
+
+/-- C14, last clause: the generated `TimingData.__init__` hands the timing engine `BeatValues.from_str` of the text stored under
+ONE key per field of the chosen source, and the decimal under OFFSET (0 when missing or empty) -/
+theorem timing_data_reads (sim : Src) (chart : Option Src) (s : Src)
+    (hsim : sim.kind = .smSimfile ∨ sim.kind = .sscSimfile) (h : timingSource sim chart = .ok s) :
+    GenCode.timingDataInit sim chart = .ok
+      { bpms := beatValuesFromStr (s.d.get? "BPMS".toList).join,
+        stops := beatValuesFromStr (s.d.get? (Simfile.stopsKey s)).join,
+        delays := beatValuesFromStr (s.d.get? "DELAYS".toList).join,
+        warps := beatValuesFromStr (s.d.get? "WARPS".toList).join,
+        offset := Simfile.offsetRule (s.d.get? "OFFSET".toList).join } := by
+  rw [GenEq.timingDataInit_eq]; exact C14More.timing_data_reads sim chart s hsim h
 
 end Simfile.GenProps
